@@ -97,6 +97,7 @@ def check(ctx):
     model = Model(ctx)
     _rotations(rep, model)
     _surfaces(rep, model)
+    _curved_detectors(rep, model)
     _composition(rep, model)
     _forwarding(rep, model)
     _coverage(rep, model)
@@ -174,51 +175,7 @@ def _rotations(rep, model):
     except PyRaise as e:
         rep.violation('R1', tag, 'raises %s' % e.name, UTIL,
                       model.ctx.func(UTIL, tag).lineno)
-    # CircularDetector frame: sin = axis[0], cos = -axis[1], |axis| = 1
-    ci = model.get('CircularDetector')
-    init = ci.methods['__init__']
-    lit = None
-    for s in ast.walk(init):
-        if isinstance(s, ast.Assign) and isinstance(
-                s.targets[0], ast.Attribute) and \
-                'rotation_matrix' in s.targets[0].attr:
-            lit = s
-    tag = 'CircularDetector.__init__:rotation_matrix'
-    if lit is None:
-        rep.undecided('R1', tag, 'rotation matrix assignment not found',
-                      DET, init.lineno)
-    else:
-        try:
-            env = {}
-            for s in init.body:
-                if isinstance(s, ast.Assign) and isinstance(
-                        s.targets[0], ast.Name) and s.targets[0].id in (
-                            'sin', 'cos'):
-                    env[s.targets[0].id] = s.value
-            ax = {'0': Rat.var('x0'), '1': Rat.var('x1')}
-
-            def ev(n):
-                if isinstance(n, ast.Name) and n.id in env:
-                    return ev(env[n.id])
-                if isinstance(n, ast.UnaryOp) and isinstance(n.op,
-                                                             ast.USub):
-                    return -ev(n.operand)
-                if isinstance(n, ast.Subscript) and 'axis' in ast.unparse(
-                        n.value):
-                    return ax[ast.unparse(n.slice)]
-                raise Undecided('entry %s' % ast.unparse(n))
-            call = lit.value
-            rows = call.args[0]
-            M = Mat([[ev(e) for e in r.elts] for r in rows.elts])
-            unit2 = {('x1', 2): Poly.const(1) - Poly.var('x0') ** 2}
-            p = check_rotation(M, unit2)
-            if p:
-                rep.violation('R1', tag, 'frame matrix is not a rotation '
-                              'for a unit axis: %s' % p, DET, lit.lineno)
-            else:
-                rep.holds('R1', tag, 'rotation for every unit axis')
-        except Undecided as e:
-            rep.undecided('R1', tag, str(e), DET, lit.lineno)
+    # (the CircularDetector frame is evaluated in _curved_detectors)
 
 
 # --------------------------------------------------------------------------
@@ -778,3 +735,121 @@ def _coverage(rep, model):
         except PyRaise as e:
             rep.violation('R5', 'helical_geometry', '%s: raises %s'
                           % (tag, e.name), CONE, None)
+
+
+# --------------------------------------------------------------------------
+# Curved detectors, evaluated: the arc passes through the origin at
+# parameter 0, is tangent to the (unit) axis there, and every point has
+# distance `radius` from the centre of curvature
+def _curved_detectors(rep, model):
+    import numpy as _np
+    from ..namodel import NA, NAHooks, NAInterp, DT, na_of, objarr
+    from .. import posalg as PA
+    from ..symex import Inst as _Inst
+
+    signs = PA.Signs({'r'})
+
+    class DHk(NAHooks):
+        def atom1(self, name):
+            if name in ('cos', 'sin'):
+                return lambda x: trig(name, to_rat(x))
+            return NAHooks.atom1(self, name)
+
+        def on_super(self, interp, selfv, cls, name, args, kwargs, target):
+            if name == '__init__' and target is not None and \
+                    target[0].name == 'Detector':
+                selfv.attrs['_Detector__partition'] = args[0]
+                selfv.attrs['_Detector__space_ndim'] = args[1]
+                selfv.attrs['_Detector__check_bounds'] = False
+                return None
+            return NotImplemented
+
+        def on_getattr(self, interp, obj, name):
+            if isinstance(obj, Rec) and name in obj.attrs:
+                return obj.attrs[name]
+            if isinstance(obj, ModuleV) and obj.name == 'np.linalg' and \
+                    name == 'norm':
+                def norm(v, **k):
+                    tot = Rat.const(0)
+                    for z in na_of(v).a.ravel():
+                        tot = tot + to_rat(z) * to_rat(z)
+                    return PA.root(tot, 2, signs)
+                return Builtin('np.linalg.norm', norm)
+            return NAHooks.on_getattr(self, interp, obj, name)
+
+        def on_decide(self, interp, cond, node):
+            # the axis is not the zero vector, the radius is positive
+            if cond.key.startswith('eq0:'):
+                return False
+            if cond.key.startswith(('Lt:', 'LtE:')):
+                return False
+            if cond.key.startswith(('Gt:', 'GtE:')):
+                return True
+            return NotImplemented
+
+    ci = model.get('CircularDetector')
+    tag = 'CircularDetector[axis (a0, a1), radius r]'
+    try:
+        H = DHk()
+        I = NAInterp(model, {}, H)
+        a0, a1, r = Rat.var('a0'), Rat.var('a1'), Rat.var('r')
+        part = Rec('RectPartition', ndim=1)
+        det = I.instantiate(ci, [part, [a0, a1], r], {})
+        n = PA.root(a0 * a0 + a1 * a1, 2, signs)
+        unit = [a0 / n, a1 / n]
+
+        def red(v):
+            return PA.reduce_full(to_rat(v))
+
+        def vec_of(v):
+            v = na_of(v)
+            return [red(x) for x in v.a.ravel()]
+        probs = []
+        s0 = vec_of(I.call(I.getattr_value(det, 'surface'), [0], {}))
+        if any(not PA.is_zero(c) for c in s0):
+            probs.append('surface(0) = %r is not the origin' % (s0,))
+        d0 = vec_of(I.call(I.getattr_value(det, 'surface_deriv'), [0], {}))
+        want = [r * u for u in unit]
+        if len(d0) != 2 or any(not PA.is_zero(g - w)
+                               for g, w in zip(d0, want)):
+            probs.append('surface_deriv(0) = %r, the arc must leave the '
+                         'origin along radius * axis = %r' % (d0, want))
+        # distance from the centre of curvature at a generic parameter
+        p = Rat.var('p')
+        sp = vec_of(I.call(I.getattr_value(det, 'surface'), [p], {}))
+        # centre = surface(0) - radius * (inward normal at 0); the normal at
+        # 0 is the tangent rotated by 90 degrees, so the centre is at
+        # distance r from the origin along +-(−a1, a0)/n
+        c = [r * (-a1) / n, r * a0 / n]
+        cands = []
+        for sgn in (1, -1):
+            cc = [sgn * x for x in c]
+            dist2 = sum(((sp[i] - cc[i]) * (sp[i] - cc[i]) for i in
+                         range(2)), Rat.const(0))
+            cands.append(trig_reduce(PA.reduce_full(dist2 - r * r)))
+        if not any(x.n.is_zero() for x in cands):
+            probs.append('points of the arc are not at distance r from a '
+                         'centre on the normal through the origin')
+        if probs:
+            rep.violation('R1', 'CircularDetector', '; '.join(probs), DET,
+                          ci.methods['__init__'].lineno)
+        else:
+            rep.holds('R1', tag, 'through the origin, tangent to the axis, '
+                      'constant curvature radius')
+    except Undecided as e:
+        rep.undecided('R1', tag, str(e), DET, ci.methods['__init__'].lineno)
+    except PyRaise as e:
+        rep.violation('R1', 'CircularDetector', 'raises %s' % e.name, DET,
+                      ci.methods['__init__'].lineno)
+
+
+def trig_reduce(r):
+    """cos(x)^2 -> 1 - sin(x)^2 for every trig atom pair."""
+    rules = {}
+    for v in r.vars():
+        if isinstance(v, tuple) and v[0] == 'cos':
+            s = satom('sin', v[1])
+            rules[(v, 2)] = Poly.const(1) - Poly.var(s) ** 2
+    if not rules:
+        return r
+    return Rat(r.n.reduce(rules), r.d.reduce(rules))
